@@ -174,7 +174,8 @@ def _crop_family(ctx: Ctx, F) -> None:
                             return env.check_rel(g2, [1] * D, off, size2)
                         _guard(ctx, "T9.crop-family", f"{tag}:narrow:{dim}:{start}:{length}", F["narrow"], f"op=narrow dim={dim} start={start} {tag}", th)
                 # region of interest
-                for start, rsz in (((1, 2, 0)[:D], (3, 2, 4)[:D]), ((0, 0, 1)[:D], (4, 3, 2)[:D])):
+                for start, rsz in (((1, 2, 0)[:D], (3, 2, 4)[:D]), ((0, 0, 1)[:D], (4, 3, 2)[:D]),
+                                   ((-2, 1, -1)[:D], (4, 3, 5)[:D]), ((-1, -3, 2)[:D], (12, 9, 11)[:D])):  # boxes reaching beyond either border
                     def th(start=start, rsz=rsz):
                         g2 = it.method(g, "region_of_interest", start, rsz)
                         return env.check_rel(g2, [1] * D, list(start), list(rsz))
